@@ -48,6 +48,11 @@ func (g *Group) Do(key string, fn func() (interface{}, error)) (v interface{}, e
 	}
 	c := &call{}
 	g.m[key] = c
+	// fn runs while the call is registered: a concurrent Do with the same key arriving now joins it.
+	// Worker bodies are atomic between scheduling points, so the window is made explicit here.
+	if e != nil && !e.Aborted() {
+		e.Point("singleflight.run", g.id)
+	}
 	c.val, c.err = fn()
 	c.done = true
 	delete(g.m, key)
